@@ -47,6 +47,8 @@ type Engine struct {
 	mu        sync.Mutex
 	active    atomic.Bool
 	parked    []*parkedG
+	// free-running goroutines waiting for a lock (not part of the schedule)
+	freeWaiters []*parkedG
 	names     map[int64]string
 	autoRole  map[int64]string
 	nameCount map[string]int
@@ -270,6 +272,26 @@ func (e *Engine) SetGroups(groups []string) {
 	}
 }
 
+// scheduledActorLocked: is this goroutine one whose points park (its role is enabled)?
+func (e *Engine) scheduledActorLocked(gid int64) bool {
+	name := e.names[gid]
+	if name == "" {
+		return false // never seen at a point: not an actor we schedule
+	}
+	if e.enabled == nil {
+		return true
+	}
+	rl := name
+	if i := strings.IndexAny(rl, ":#/"); i >= 0 {
+		rl = rl[:i]
+	}
+	if e.enabled[rl] {
+		return true
+	}
+	// harness goroutines (clients c<N>, closer, prefill, recover, subscriber callbacks)
+	return e.enabled["client"] && (len(rl) >= 2 && rl[0] == 'c' && rl[1] >= '0' && rl[1] <= '9' || rl == "closer" || rl == "prefill" || rl == "recover")
+}
+
 // OnlyTickersParked reports whether nothing but ticker-driven goroutines
 // (compactors, merge operators) is parked: the database is idle.
 func (e *Engine) OnlyTickersParked() bool {
@@ -311,6 +333,12 @@ func (e *Engine) waitLock(site string, try func() bool) {
 			return
 		}
 		e.mu.Lock()
+		if !e.scheduledActorLocked(gid) {
+			// free-running goroutines (role not in the enabled group) must not consume
+			// decisions: when they get here is a real-time race
+			e.mu.Unlock()
+			return
+		}
 		d, ok := e.nextDecision(100)
 		if !ok || d >= e.sched.LockYield || !e.active.Load() {
 			e.mu.Unlock()
@@ -324,6 +352,17 @@ func (e *Engine) waitLock(site string, try func() bool) {
 	e.mu.Lock()
 	if !e.active.Load() {
 		e.mu.Unlock()
+		return
+	}
+	if !e.scheduledActorLocked(gid) {
+		// A free-running goroutine met a held lock (whether it does is a real-time race
+		// with the goroutine that runs): it waits durably and is let go by the root at
+		// the next quiescent moment at which the lock is free, without becoming a
+		// scheduling step, so the schedule and its digest do not depend on that race.
+		w := &parkedG{site: site, ch: make(chan struct{}), try: try, gid: gid}
+		e.freeWaiters = append(e.freeWaiters, w)
+		e.mu.Unlock()
+		<-w.ch
 		return
 	}
 	p := &parkedG{name: e.nameLocked(gid, site, 0), site: site, seq: e.arrival, ch: make(chan struct{}), try: try, gid: gid}
@@ -415,6 +454,27 @@ func (e *Engine) Run(done func() bool, maxSteps uint64) RunResult {
 	idleSim := time.Duration(0)
 	for {
 		synctest.Wait()
+		// let free-running lock waiters go, one at a time, while their lock is free
+		for {
+			var w *parkedG
+			e.mu.Lock()
+			for i, c := range e.freeWaiters {
+				if c.try() {
+					w = c
+					e.freeWaiters = append(e.freeWaiters[:i], e.freeWaiters[i+1:]...)
+					break
+				}
+			}
+			e.mu.Unlock()
+			if w == nil {
+				break
+			}
+			if e.KeepTrace {
+				e.TraceLog = append(e.TraceLog, fmt.Sprintf("free lock waiter released: %s at %s", e.names[w.gid], w.site))
+			}
+			close(w.ch)
+			synctest.Wait()
+		}
 		if f := e.OnStep; f != nil {
 			f()
 		}
@@ -607,8 +667,9 @@ func (e *Engine) describeParked() string {
 func (e *Engine) Stop() {
 	e.mu.Lock()
 	e.active.Store(false)
-	ps := e.parked
+	ps := append(e.parked, e.freeWaiters...)
 	e.parked = nil
+	e.freeWaiters = nil
 	e.mu.Unlock()
 	for _, p := range ps {
 		close(p.ch)
